@@ -22,6 +22,9 @@ macro_rules! dispatch {
     ($id:expr, $f:ident $(, $arg:expr)*) => {
         match $id {
             "C01" => runner::$f::<props::c01::P>($($arg),*),
+            "C08" => runner::$f::<props::c08::P>($($arg),*),
+            "C09" => runner::$f::<props::c09::P>($($arg),*),
+            "C15" => runner::$f::<props::c15::P>($($arg),*),
             other => {
                 eprintln!("unknown property {other}");
                 2
